@@ -211,7 +211,12 @@ int sim_pthread_join(pthread_t t, void **ret) {
 		sim_violation_deferred("join-twice", "pthread_join on fiber %ld (%s) whose join already completed (its thread descriptor is gone: undefined behaviour)", id, S.fb[id].name);
 		return ESRCH;
 	}
-	if (S.fb[id].joined == 1) { sim_probe("pthread_join.concurrent_EINVAL"); return EINVAL; } /* glibc: another thread is already waiting to join */
+	if (S.fb[id].joined == 1) {
+		/* glibc: another thread is already waiting to join with this thread */
+		sim_probe("pthread_join.concurrent_EINVAL");
+		sim_set_context_tag("concurrent-join");
+		return EINVAL;
+	}
 	S.fb[id].joined = 1;
 	if (S.fb[id].st != FB_DONE) sim_block(pred_done, (void *)(intptr_t)id, 0, "pthread_join.wait");
 	S.fb[id].joined = 2;
